@@ -55,7 +55,8 @@ fn run_set<S: PS>(ctx: &Ctx) -> Acc {
     let p = S::p();
     let mut acc = Acc::new();
     let mut g = Prng::derive(ctx.seed, &format!("c12-{}", p.name), 0);
-    let (_, sk) = S::keygen_seed(&g.arr32());
+    let sk_xi = g.arr32();
+    let (_, sk) = S::keygen_seed(&sk_xi);
     let entries: Vec<Entry> = vec![Entry::KeygenFn, Entry::KeygenTrait, Entry::Sign(Mode::Pure), Entry::Sign(Mode::Sha256), Entry::Sign(Mode::Sha512), Entry::Sign(Mode::Shake128), Entry::Dudect].into_iter().filter(|e| *e != Entry::Dudect || S::HAS_DUDECT).collect();
     let kinds = [FaultKind::Before, FaultKind::AfterPartial(1), FaultKind::AfterPartial(16), FaultKind::AfterPartial(31), FaultKind::AfterFull];
     let m = g.bytes(20);
@@ -142,6 +143,8 @@ fn run_set<S: PS>(ctx: &Ctx) -> Acc {
     let n_base = ctx.budget(1, 16) as usize;
     let jobs: Vec<(usize, usize)> = (0..n_base).flat_map(|b| (0..entries.len()).map(move |e| (b, e))).collect();
     let accs = par_map(jobs.len(), |j| {
+        // each worker has its own key object: key types need not be Sync
+        let (_, sk) = S::keygen_seed(&sk_xi);
         let (b, ei) = jobs[j];
         let e = entries[ei];
         let mut a = Acc::new();
